@@ -198,7 +198,7 @@ def run_hashseed(tier):
     repo = os.environ.get('VERIF_REPO', '/repo')
     cfgs = [('hierarchical', 'a'), ('hierarchical', 'b'), ('hybrid', 'd'),
             ('ddmin', 'c'), ('hierarchical', 'e'), ('hierarchical', 'g'),
-            ('hybrid', 'g')]
+            ('hybrid', 'g'), ('hierarchical', 'm'), ('ddmin', 'm')]
     seeds = [0, 1, 2, 3, 7, 11] if tier == 'quick' else list(range(24))
     results = {}
     bad = None
